@@ -3,7 +3,8 @@ the same tree from the same children."""
 from typing import List
 
 from sqv import hlib
-from sqv.pstub import run_action
+from sqv.pstub import run_action, run_prod, NoSuchProduction, load_productions
+load_productions()
 from smartquery import rules
 from smartquery.ast_ops import ValueOp, NameOp, CallOp
 
@@ -22,21 +23,21 @@ def trailing_comma_call(args: List[int], name: str, recv: int) -> None:
     kids = _kids(args)
     r = ValueOp(recv)
     if form == 'call':
-        a = run_action(rules.p_expression_call, ['NAME', 'LPAREN', 'arglist', 'RPAREN'], [name, '(', list(kids), ')'])
-        b = run_action(rules.p_expression_call, ['NAME', 'LPAREN', 'arglist', 'COMMA', 'RPAREN'], [name, '(', list(kids), ',', ')'])
+        a = run_prod('expression', ['NAME', 'LPAREN', 'arglist', 'RPAREN'], [name, '(', list(kids), ')'])
+        b = run_prod('expression', ['NAME', 'LPAREN', 'arglist', 'COMMA', 'RPAREN'], [name, '(', list(kids), ',', ')'])
     elif form in ('DOT', 'PIPE'):
         s = '.' if form == 'DOT' else '|'
-        a = run_action(rules.p_expression_method_call, ['expression', form, 'NAME', 'LPAREN', 'arglist', 'RPAREN'],
+        a = run_prod('expression', ['expression', form, 'NAME', 'LPAREN', 'arglist', 'RPAREN'],
                        [r, s, name, '(', list(kids), ')'])
-        b = run_action(rules.p_expression_method_call, ['expression', form, 'NAME', 'LPAREN', 'arglist', 'COMMA', 'RPAREN'],
+        b = run_prod('expression', ['expression', form, 'NAME', 'LPAREN', 'arglist', 'COMMA', 'RPAREN'],
                        [r, s, name, '(', list(kids), ',', ')'])
     elif form == 'list':
-        a = run_action(rules.p_list_literal, ['LBRACKET', 'arglist', 'RBRACKET'], ['[', list(kids), ']'])
-        b = run_action(rules.p_list_literal, ['LBRACKET', 'arglist', 'COMMA', 'RBRACKET'], ['[', list(kids), ',', ']'])
+        a = run_prod('expression', ['LBRACKET', 'arglist', 'RBRACKET'], ['[', list(kids), ']'])
+        b = run_prod('expression', ['LBRACKET', 'arglist', 'COMMA', 'RBRACKET'], ['[', list(kids), ',', ']'])
     else:
         items = [(k, k) for k in kids]
-        a = run_action(rules.p_dict_literal, ['LBRACE', 'dict_item', 'RBRACE'], ['{', list(items), '}'])
-        b = run_action(rules.p_dict_literal, ['LBRACE', 'dict_item', 'COMMA', 'RBRACE'], ['{', list(items), ',', '}'])
+        a = run_prod('expression', ['LBRACE', 'dict_item', 'RBRACE'], ['{', list(items), '}'])
+        b = run_prod('expression', ['LBRACE', 'dict_item', 'COMMA', 'RBRACE'], ['{', list(items), ',', '}'])
     assert a == b, "a trailing comma changes the tree (%s)" % form
     if form in ('DOT', 'PIPE'):
         assert a == CallOp(name, [r] + kids), "method-call sugar does not build f(receiver, args...)"
@@ -52,14 +53,14 @@ def call_spellings(args: List[int], name: str, recv: int) -> None:
     kids = _kids(args)
     r = ValueOp(recv)
     if kids:
-        dot = run_action(rules.p_expression_method_call, ['expression', 'DOT', 'NAME', 'LPAREN', 'arglist', 'RPAREN'],
+        dot = run_prod('expression', ['expression', 'DOT', 'NAME', 'LPAREN', 'arglist', 'RPAREN'],
                          [r, '.', name, '(', list(kids), ')'])
-        pipe = run_action(rules.p_expression_method_call, ['expression', 'PIPE', 'NAME', 'LPAREN', 'arglist', 'RPAREN'],
+        pipe = run_prod('expression', ['expression', 'PIPE', 'NAME', 'LPAREN', 'arglist', 'RPAREN'],
                           [r, '|', name, '(', list(kids), ')'])
     else:
-        dot = run_action(rules.p_expression_method_call, ['expression', 'DOT', 'NAME', 'LPAREN', 'RPAREN'], [r, '.', name, '(', ')'])
-        pipe = run_action(rules.p_expression_method_call, ['expression', 'PIPE', 'NAME'], [r, '|', name])
-    plain = run_action(rules.p_expression_call, ['NAME', 'LPAREN', 'arglist', 'RPAREN'], [name, '(', [r] + list(kids), ')'])
+        dot = run_prod('expression', ['expression', 'DOT', 'NAME', 'LPAREN', 'RPAREN'], [r, '.', name, '(', ')'])
+        pipe = run_prod('expression', ['expression', 'PIPE', 'NAME'], [r, '|', name])
+    plain = run_prod('expression', ['NAME', 'LPAREN', 'arglist', 'RPAREN'], [name, '(', [r] + list(kids), ')'])
     assert dot == plain and pipe == plain, "r.f(a), r | f(a) and f(r, a) build different trees"
     hlib.done()
 
@@ -71,6 +72,6 @@ def group_is_transparent(v: int) -> None:
     """
     hlib.enter(locals())
     inner = ValueOp(v)
-    g = run_action(rules.p_expression_group, ['LPAREN', 'expression', 'RPAREN'], ['(', inner, ')'])
+    g = run_prod('expression', ['LPAREN', 'expression', 'RPAREN'], ['(', inner, ')'])
     assert g is inner, "parenthesised expression does not yield the inner tree itself"
     hlib.done()
